@@ -1,24 +1,25 @@
-"""C14 — point-in-polygon and measures: bounding-box pre-filter soundness by exhaustive weak-order
-enumeration, decision tables of Polygon::contain, group verdicts only through contain, measures."""
+"""C14 — point-in-polygon and measures: Polygon::contain and the five group queries decided by small-scope
+interpretation of their source against the exact closed region; measures by structure and affine typing."""
 import itertools
 import re
+import os
 from .. import clone, tables
 from ..facts import AnalysisBroken
 from ..flow import lvalue_key, is_assign, _strip_casts
 
-EXPLANATION = ('(1) The bounding-box pre-filter of each of the five group functions is a Boolean combination of comparisons among '
-               'p.x, p.y, min.x, min.y, max.x, max.y; it is evaluated over ALL weak orderings of those six quantities (a finite '
-               'abstract domain that represents every input exactly for comparison-only predicates) and must satisfy: reject => '
-               'outside the box (all-variants) / inside the box => accept (any-variants). (2) Decision tables of Polygon::contain, '
-               'extracted from its branch structure and enumerated over all weak orderings of (p0.x, p1.x, point.x): an edge that '
-               'crosses the ray line may be skipped only when it lies strictly left (p0.x < x and p1.x <= x), is counted directly '
-               'only when it lies right with p1.x > x, and otherwise goes through the determinant test (which reports on-edge '
-               'points); the crossing test is the half-open rule (p0.y < y) != (p1.y < y); the boundary test accepts only points '
-               'on the closed edge and every point equal to p1 or strictly inside a horizontal edge. (3) Group functions reach a '
-               'positive verdict only through Polygon::contain. (4) area/signed_area/perimeter return 0 below three vertices before '
-               'any vertex is read, area and signed_area share one shoelace loop, the repetition count multiplies area and '
-               'perimeter and not signed_area. Winding accumulation over whole polygons and floating sums are not decided.')
-ASSUMPTIONS = ['bounding_box returns min <= max component-wise for non-empty polygons (C09); an empty group gives the inverted box, for which every ordering is enumerated as well']
+EXPLANATION = ('(1) Polygon::contain is interpreted (sa/minieval, the Vec2 operators of vec.hpp as primitives) on every polygon of up to '
+               'three vertices (thorough: four) on the even points of a 5 x 5 integer grid plus a list of shapes with holes, double '
+               'winding, lobes of opposite winding, spikes and notches, against every grid point; the verdict must be the closed '
+               'region under the non-zero rule, computed exactly. The algorithm only compares coordinates and takes the sign of one '
+               'determinant, so the grid reaches every ordering of a query against an edge. (2) The five group queries are interpreted '
+               'on ordered groups of up to two (thorough: three) of six shapes - among them a segment, a single vertex and an empty '
+               'polygon - and point lists of up to two (three) of eight points, with contain() answered exactly per member: inside() '
+               'must report per point whether some member contains it, all_/any_inside and contain_all/_any the quantifiers of that '
+               '(true / false for no points). Statement forms (pre-filters, verdict variables, early exits or flags) are not looked at. '
+               '(3) area/signed_area/perimeter return 0 below three vertices before any vertex is read, area and signed_area share one '
+               'shoelace loop, the repetition count multiplies area and perimeter and not signed_area, and the measures are built '
+               'from vertex differences only. Rounding of the determinant for non-integer coordinates and floating sums are not decided.')
+ASSUMPTIONS = ['Polygon::bounding_box is the extent of the vertices (C09), the inverted infinite box for an empty polygon; Vec2 operators behave as written in include/gdstk/vec.hpp (component-wise arithmetic, cross = x1*y2 - y1*x2)', 'a defect of contain or of a group query that needs more than four vertices, more than three members / points, or non-integer coordinates to show is outside the explored scope']
 XREF_FILES = ['src/polygon.cpp']
 
 
@@ -133,137 +134,82 @@ def ev2(c, val):
     return None
 
 
-def check_prefilters(ctx, db):
-    """The bounding-box pre-filter never changes a verdict. Over all weak orderings of (point.x, point.y, min.x, min.y, max.x,
-    max.y) and both outcomes of the exact test: an `accept` routine reaches its positive verdict for every point that is inside
-    the box and contained; a `reject` routine reaches its box-based negative verdict only for points outside the box. The
-    verdict statements are found by their path conditions (enclosing ifs and preceding guard clauses), so `if (in_box &&
-    contain(p)) return true;` and `if (!in_box) continue; if (contain(p)) return true;` are the same to the rule."""
-    n = 0
-    targets = [('gdstk::Polygon::contain_all', 'reject'), ('gdstk::Polygon::contain_any', 'accept'), ('gdstk::inside', 'accept'), ('gdstk::all_inside', 'reject'), ('gdstk::any_inside', 'accept')]
-    for qn, mode in targets:
-        f = db.fn(qn)
-        ctx.touch(f)
-        key = '%s/prefilter' % qn.replace('gdstk::', '')
-        verdicts = []
-        for x in f.walk():
-            want = (mode == 'accept')
-            if x.k == 'ReturnStmt' and x.child('value') is not None and _strip_casts(x.child('value')).k == 'CXXBoolLiteralExpr' and bool(_strip_casts(x.child('value')).v) == want:
-                verdicts.append(x)
-            elif is_assign(x) and x.op == '=' and _strip_casts(x.child('rhs')).k == 'CXXBoolLiteralExpr' and bool(_strip_casts(x.child('rhs')).v) == want:
-                verdicts.append(x)
-        cand = []
-        for v in verdicts:
-            conds = tables.path_conds(v)
-            ops = set()
-            for c, pol in conds:
-                cmp_operands(c, ops)
-            if any(o.endswith('min.x') for o in ops) and any(o.endswith('max.x') for o in ops):
-                cand.append((v, conds, ops))
-        if not cand:
-            raise AnalysisBroken('%s: bounding-box pre-filter not found' % qn)
-        for v, conds, ops in cand:
-            syms = sorted(o for o in ops)
-            pt = next((o[:-2] for o in syms if o.endswith('.x') and not o.split('.')[0].endswith(('min', 'max'))), None)
-            mn = next((o[:-2] for o in syms if o.endswith('min.x')), None)
-            mx = next((o[:-2] for o in syms if o.endswith('max.x')), None)
-            need = {pt + '.x', pt + '.y', mn + '.x', mn + '.y', mx + '.x', mx + '.y'} if pt and mn and mx else set()
-            if not need or not set(syms) <= need:
-                ctx.violation('R-ORDER', key, v.loc(), 'pre-filter mentions quantities other than the point and the box: %s' % syms)
-                continue
-            allsyms = sorted(need)
-            bad = None
-            count = 0
-            for ranks in itertools.product(range(3), repeat=6):
-                val = dict(zip(allsyms, ranks))
-                outside = val[pt + '.x'] < val[mn + '.x'] or val[pt + '.x'] > val[mx + '.x'] or val[pt + '.y'] < val[mn + '.y'] or val[pt + '.y'] > val[mx + '.y']
-                for cv in (False, True):
-                    val['call'] = cv
-                    count += 1
-                    rs = [(ev2(c, val), pol) for c, pol in conds]
-                    blocked = any(r is not None and r != pol for r, pol in rs)
-                    if mode == 'reject':
-                        # the negative verdict is reachable (as far as the box tests go) although the point is not outside
-                        if not blocked and not outside:
-                            bad = dict(val)
-                    else:
-                        if blocked and not outside and cv:
-                            bad = dict(val)
-            ctx.explored['valuations'] += count
-            n += 1
-            ctx.check(bad is None, 'R-ORDER', key, v.loc(),
-                      'over all %d weak orderings: %s' % (count, 'a rejected point is outside the box' if mode == 'reject' else 'every contained point inside the box reaches the positive verdict'),
-                      'pre-filter is unsound for the ordering %s: %s' % (bad, 'a point inside the box is rejected' if mode == 'reject' else 'a point inside the box is filtered out before contain() is asked'))
-    ctx.require('R-ORDER pre-filters', n, 5)
+def _contain_oracle(poly, q):
+    """the closed region of the polygon under the non-zero rule, exactly (integer coordinates)"""
+    n = len(poly)
+    if n == 0:
+        return False
+    wn = 0
+    for i in range(n):
+        a, b = poly[i - 1], poly[i]
+        cr = (b[0] - a[0]) * (q[1] - a[1]) - (b[1] - a[1]) * (q[0] - a[0])
+        if cr == 0 and min(a[0], b[0]) <= q[0] <= max(a[0], b[0]) and min(a[1], b[1]) <= q[1] <= max(a[1], b[1]):
+            return True                 # on the closed edge (or on a repeated vertex)
+        if a[1] <= q[1] < b[1] and cr > 0:
+            wn += 1
+        elif b[1] <= q[1] < a[1] and cr < 0:
+            wn -= 1
+    return wn != 0
+
+
+CONTAIN_SHAPES = [
+    [(0, 0), (4, 0), (4, 4), (0, 4)], [(0, 4), (4, 4), (4, 0), (0, 0)],                         # square, both orientations
+    [(0, 0), (4, 0), (0, 4), (4, 4)], [(0, 0), (4, 4), (4, 0), (0, 4)],                         # bow-ties (lobes of opposite winding)
+    [(0, 0), (4, 0), (4, 4), (0, 4), (0, 0), (4, 0), (4, 4), (0, 4)],                           # doubly wound (winding 2)
+    [(0, 0), (4, 0), (4, 4), (0, 4), (0, 0), (0, 4), (4, 4), (4, 0)],                           # wound forth and back (winding 0 inside)
+    [(0, 0), (4, 0), (4, 4), (2, 2), (0, 4)], [(0, 0), (2, 2), (4, 0), (4, 4), (0, 4)],         # concave, notch at a vertex level with queries
+    [(0, 0), (4, 0), (4, 2), (2, 2), (2, 4), (0, 4)],                                           # L shape: horizontal and vertical edges through query rows
+    [(0, 2), (2, 0), (4, 2), (2, 4)], [(2, 0), (2, 4), (4, 2), (0, 2)],                         # diamond; star-like crossing
+    [(0, 0), (4, 0), (4, 4), (0, 4), (0, 2), (2, 2), (2, 1), (0, 1)],                           # spike folded back along an edge
+    [(1, 1), (3, 1), (3, 3), (1, 3), (1, 1), (0, 0), (4, 0), (4, 4), (0, 4), (0, 0)],           # ring through a zero-width bridge (hole)
+]
 
 
 def check_contain(ctx, db):
+    """Polygon::contain interpreted (sa/minieval with the Vec2 operators of vec.hpp as primitives) on every polygon of up
+    to three vertices (thorough: four) with vertices on the even points of a 5 x 5 grid and on a list of shapes with
+    holes, double winding, opposite lobes, spikes and notches, against every query point of the grid (vertices, edge
+    interiors, edge levels, inside, outside). The verdict must be the closed region under the non-zero rule, computed
+    exactly. The point-in-polygon algorithm only compares coordinates and takes the sign of one determinant, so the
+    grid reaches every ordering of a query against an edge; what is not reached is rounding of the determinant for
+    non-integer coordinates. Nothing about the statement form (early returns, flags, pointer or index walk) enters."""
+    from .. import minieval as M
     f = db.fn('gdstk::Polygon::contain')
     ctx.touch(f)
-    loop = next((l for l in f.walk() if l.k == 'ForStmt'), None)
-    if loop is None:
-        raise AnalysisBroken('Polygon::contain: edge loop not found')
-    ifs = [s for s in loop.child('body').c if s is not None and s.k == 'IfStmt']
-    if len(ifs) != 2:
-        raise AnalysisBroken('Polygon::contain: expected boundary test + crossing test in the edge loop')
-    boundary, crossing = ifs
-    # crossing rule
-    ct = norm(crossing.child('cond').text())
-    ctx.check(ct == '((p0.y < point.y) != (p1.y < point.y))', 'R-TABLE', 'Polygon::contain/crossing-rule', crossing.loc(), 'an edge is examined iff (p0.y < y) != (p1.y < y) (half-open rule: no double counting at vertices)', 'crossing rule is `%s`' % ct)
-    # x-case table
+    full = ctx.tier == 'thorough'
+
+    def run(poly, q):
+        pts = [M.Obj(x=x, y=y) for x, y in poly]
+        mi = M.Mini(db, members={'this->point_array': M.Obj(items=M.Ptr(pts, 0), count=len(pts))}, budget=5000)
+        try:
+            mi.run(f.body, {'point': M.Obj(x=q[0], y=q[1])})
+        except M.Return as r:
+            return bool(r.v)
+        raise AnalysisBroken('Polygon::contain: no value returned for %s / %s' % (poly, q))
+    even = [(x, y) for x in (0, 2, 4) for y in (0, 2, 4)]
+    grid = [(x, y) for x in range(5) for y in range(5)]
+    some = [(2, 2), (1, 1), (3, 1), (1, 3), (2, 1), (1, 2), (3, 2), (0, 0), (4, 4), (2, 0), (0, 2), (3, 3), (4, 1)]
+    polys = [[]] + [list(p) for n in (1, 2, 3) for p in itertools.product(even, repeat=n)]
+    if full:
+        polys += [list(p) for p in itertools.product(even, repeat=4)]
     bad = []
-    table = {}
-    for r0, r1 in itertools.product('<=>', repeat=2):
-        val = {'point.x': 1, 'p0.x': {'<': 0, '=': 1, '>': 2}[r0], 'p1.x': {'<': 0, '=': 1, '>': 2}[r1]}
-        out = classify(crossing.child('then'), val)
-        table[(r0, r1)] = out
-        if r0 == '<' and r1 in '<=':
-            want = {'skip'}
-        elif r1 == '>' and r0 in '=>':
-            want = {'count'}
-        else:
-            want = {'det'}
-        if out not in want:
-            bad.append(((r0, r1), out, sorted(want)))
-    ctx.explored['valuations'] += 9
-    ctx.check(not bad, 'R-TABLE', 'Polygon::contain/x-cases', crossing.loc(), 'all 9 orderings of (p0.x, p1.x) against x are handled: strictly-left edges skipped, right edges counted, the rest decided by the determinant (on-edge points reported)',
-              'edge cases mishandled (p0.x ? x, p1.x ? x) -> got, allowed: %s' % bad)
-    # det blocks: det == 0 returns true; sign test
-    from ..facts import expr_text
-    hook, drop = clone.temps(f, [f.body])        # named comparisons (`const bool upwards = p1.y > p0.y`) read as their initialisers
-    tx = lambda e: norm(expr_text(e, None, hook))
-    dets = [v for v in crossing.walk() if v.k == 'VarDecl' and v.n == 'det']
-    ok = len(dets) >= 1
-    for d in dets:
-        ok = ok and tx(d.child('init')) == '(p0 - point).cross((p1 - point))'
-        blk = d.parent.parent
-        t = norm(clone.canon(blk, f, hook=hook, drop=drop))
-        ok = ok and re.search(r'if \(\(v\d+ == 0\)\)\n\s+return true', t) is not None and '((v' in t and '> 0) == (' in t
-    ctx.check(ok, 'R-TABLE', 'Polygon::contain/det-blocks', crossing.loc(), 'each determinant block uses (p0 - point) x (p1 - point), reports a zero determinant as on-edge and counts only when its sign agrees with the edge direction')
-    incs = [x for x in crossing.walk() if x.k == 'CompoundAssignOperator' and x.op == '+=' and norm(x.child('lhs').text()) == 'winding']
-    ok = len(incs) >= 2 and all(tx(x.child('rhs')) == '((p1.y > p0.y) ? 1 : (-1))' for x in incs)
-    ctx.check(ok, 'R-TABLE', 'Polygon::contain/winding-step', crossing.loc(), 'every counted crossing adds +1 for an upward and -1 for a downward edge')
-    # boundary test: sound (true => on closed edge) and complete for p1 and strictly interior horizontal points
-    c = boundary.child('cond')
-    bad = None
-    for x0, x1, y0, y1 in itertools.product(range(3), repeat=4):
-        val = {'point.x': 1, 'point.y': 1, 'p0.x': x0, 'p1.x': x1, 'p0.y': y0, 'p1.y': y1}
-        res = ev(c, val)
-        on_p1 = x1 == 1 and y1 == 1
-        horizontal = y0 == 1 and y1 == 1
-        between_closed = horizontal and min(x0, x1) <= 1 <= max(x0, x1)
-        strictly = horizontal and min(x0, x1) < 1 < max(x0, x1)
-        if res and not (on_p1 or between_closed):
-            bad = ('accepts a point off the edge', val)
-        if (on_p1 or strictly) and not res:
-            bad = ('misses a point on the edge', val)
-    ctx.explored['valuations'] += 81
-    ctx.check(bad is None and any(r.k == 'ReturnStmt' and norm(r.child('value').text()) == 'true' for r in boundary.child('then').walk()), 'R-ORDER', 'Polygon::contain/boundary-test', boundary.loc(),
-              'over all 81 orderings the vertex/horizontal-edge test accepts only points on the closed edge and every point equal to p1 or strictly inside a horizontal edge', 'boundary test %s' % (bad,))
-    # prologue/epilogue
-    t = norm(clone.canon(f.body, f, ren=clone.Renamer(f, params_by_name=True)))
-    ok = t.startswith('if ((this->point_array.count == 0))') and 'Vec2 v0 = Vec2{this->point_array[(this->point_array.count - 1)]}' in t and re.search(r'\(v0 = v\d+\)\n', t) is not None and t.rstrip().endswith('return (v1 != 0)')
-    ctx.check(ok, 'R-SHAPE', 'Polygon::contain/closed-walk', f.loc(), 'edges are walked cyclically starting from the last vertex and the verdict is winding != 0')
+    runs = 0
+    for poly in polys + CONTAIN_SHAPES:
+        for q in (grid if (full or len(poly) != 3) else some):
+            runs += 1
+            try:
+                got = run(poly, q)
+            except M.OutOfBounds as ex:
+                got = str(ex)
+            want = _contain_oracle(poly, q)
+            if got != want and len(bad) < 3:
+                where = 'in the closed region' if want else 'outside'
+                bad.append('polygon %s, point %s (%s): contain() gives %s' % (poly, q, where, got))
+    ctx.explored['valuations'] += runs
+    ctx.check(not bad, 'R-TABLE', 'Polygon::contain/closed-region', f.loc(),
+              'interpreted on %d (polygon, point) pairs: the verdict is the closed region under the non-zero rule (boundary and vertices included, holes and zero-winding lobes excluded)' % runs,
+              'point-in-polygon verdict is wrong: ' + '; '.join(bad))
+    ctx.require('R-TABLE contain cases interpreted', runs, 8000)
 
 
 def classify(stmt, val):
@@ -287,69 +233,111 @@ def classify(stmt, val):
     return 'skip'
 
 
+GROUP_SHAPES = [
+    [(0, 0), (4, 0), (4, 4), (0, 4)],          # a square
+    [(4, 0), (8, 0), (8, 4)],                  # a triangle touching it
+    [(1, 1), (3, 1), (3, 3), (1, 3)],          # a square inside the first
+    [(0, 6), (4, 6)],                          # degenerate: a segment (contains the points on it)
+    [(6, 6)],                                  # degenerate: one vertex
+    [],                                        # no vertices
+]
+GROUP_POINTS = [(2, 2), (7, 1), (6, 6), (2, 6), (9, 9), (5, 3), (4, 2), (-1, 2)]
+
+
 def check_groups(ctx, db):
+    """The five group queries interpreted (sa/minieval) on small groups and point lists: every ordered group of up to two
+    of six shapes (convex, nested, touching, a segment, a single vertex, an empty polygon) and every list of up to two of
+    eight query points (inside one member, inside two, on a shared edge, on a degenerate member, outside the group box,
+    inside the box but outside every member), plus longer samples. Polygon::contain is answered by the exact closed
+    region of the member it is called on (it is decided on its own by Polygon::contain/closed-region) and
+    Polygon::bounding_box by the extent of the member's vertices. Required: inside() reports for every point exactly
+    whether some member contains it; all_inside / any_inside and contain_all / contain_any are the universal /
+    existential quantifier over the points of that, true / false for no points. Pre-filters, verdict variables, loop and
+    exit forms are not looked at: only what is returned."""
+    from .. import minieval as M
+    import itertools as it
+    shapes, qs = GROUP_SHAPES, GROUP_POINTS
+    full = ctx.tier == 'thorough'
+    groups = [list(g) for n in (0, 1, 2) for g in it.product(range(len(shapes)), repeat=n)]
+    groups += [[0, 1, 2], [2, 1, 0], [5, 4, 3], [3, 0, 4], [1, 5, 0]]
+    lists = [list(l) for n in (0, 1) for l in it.product(range(len(qs)), repeat=n)] + [list(l) for l in it.product(range(len(qs) if full else 6), repeat=2)]
+    lists += [[0, 1, 2], [4, 0, 1], [0, 4, 1], [0, 1, 4], [3, 2, 6], [5, 5, 5], [0, 6, 1, 2, 3]]
+    if full:
+        groups += [list(g) for g in it.product(range(len(shapes)), repeat=3)]
+        lists += [list(l) for l in it.product(range(len(qs)), repeat=3)]
+    inf = float('inf')
+
+    def mkpoly(ix):
+        pts = [M.Obj(x=x, y=y) for x, y in shapes[ix]]
+        return M.Obj(point_array=M.Obj(items=M.Ptr(pts, 0), count=len(pts)), _shape=ix)
+
+    def hook_for(mi_ref):
+        def hook(callee, args, node):
+            if callee == 'gdstk::Polygon::contain':
+                o = mi_ref[0].call_object()
+                if not isinstance(o, M.Obj) or '_shape' not in o:
+                    raise AnalysisBroken('group query: contain() called on something that is not a member of the group')
+                return (int(_contain_oracle(shapes[o['_shape']], (args[0]['x'], args[0]['y']))),)
+            if callee == 'gdstk::Polygon::bounding_box':
+                o = mi_ref[0].call_object()
+                pts = shapes[o['_shape']]
+                mn, mx = args[0], args[1]
+                mn['x'], mn['y'] = (min(p[0] for p in pts), min(p[1] for p in pts)) if pts else (inf, inf)
+                mx['x'], mx['y'] = (max(p[0] for p in pts), max(p[1] for p in pts)) if pts else (-inf, -inf)
+                return (None,)
+            return None
+        return hook
+
+    def truth(g, q):
+        return any(_contain_oracle(shapes[ix], qs[q]) for ix in g)
+
+    total = 0
     for qn in ('gdstk::Polygon::contain_all', 'gdstk::Polygon::contain_any', 'gdstk::inside', 'gdstk::all_inside', 'gdstk::any_inside'):
         f = db.fn(qn)
-        pos = [x for x in f.walk() if (x.k == 'ReturnStmt' and x.child('value') is not None and norm(x.child('value').text()) == 'true') or
-               (is_assign(x) and norm(x.child('rhs').text()) == 'true')]
-        ok = True
-        final = [s for s in f.body.c if s is not None][-1]
-        for p in pos:
-            if p is final:
-                continue
-            guarded = False
-            for a in p.ancestors():
-                if a.k == 'IfStmt' and any(c.k == 'CXXMemberCallExpr' and (c.callee or '') == 'gdstk::Polygon::contain' for c in a.child('cond').walk()):
-                    c = _strip_casts(a.child('cond'))
-                    neg = c.k == 'UnaryOperator' and c.op == '!'
-                    guarded = guarded or not neg
-            ok = ok and guarded
-        for x in f.walk():
-            if is_assign(x) and norm(x.child('lhs').text()).startswith('result[') and _strip_casts(x.child('rhs')).k != 'CXXBoolLiteralExpr':
-                ok = False
-        ctx.check(ok and bool(pos), 'R-EFFECT', '%s/verdict-through-contain' % qn.replace('gdstk::', ''), f.loc(), 'a positive verdict is reached only under a true Polygon::contain (or as the final value of an all-quantifier)')
-        # a per-point verdict variable is fresh in every iteration of the per-point loop
-        for x in f.walk():
-            if not (is_assign(x) and norm(x.child('rhs').text()) == 'true'):
-                continue
-            inner = next((a for a in x.ancestors() if a.k == 'ForStmt'), None)
-            outer = next((a for a in inner.ancestors() if a.k == 'ForStmt'), None) if inner is not None else None
-            if inner is None or outer is None:
-                continue
-            key = norm(x.child('lhs').text())
-            body = [s_ for s_ in (outer.child('body').c if outer.child('body').k == 'CompoundStmt' else [outer.child('body')]) if s_ is not None]
-            top = next((s_ for s_ in body if s_ is inner or any(y is inner for y in s_.walk())), None)
-            fresh = False
-            for s_ in body[:body.index(top)] if top in body else []:
-                if is_assign(s_) and norm(s_.child('lhs').text()) == key and norm(s_.child('rhs').text()) == 'false':
-                    fresh = True
-                if s_.k == 'DeclStmt' and any(v is not None and v.k == 'VarDecl' and v.n == key and v.child('init') is not None and norm(v.child('init').text()) == 'false' for v in s_.c):
-                    fresh = True
-            ctx.check(fresh, 'R-FRESH', '%s/per-point-verdict:%s' % (qn.replace('gdstk::', ''), key), x.loc(), 'the verdict `%s` is reset to false at the start of every point\'s iteration, before the search over the polygons' % key,
-                      'the per-point verdict `%s` is not reset inside the loop over the points: once one point is found inside, every later point inherits the answer' % key)
-        # every point and every polygon is visited
-        from .. import loops as LP
-        trips = []
-        for l in LP.loops_of(f):
-            t = LP.Loop(f, l).trip()
-            if t is not None:
-                trips.append(t)
-        pk = next(('v%d:%s' % (p_['d'], p_['n']) for p_ in f.params if p_['n'] == 'points'), None)
-        gk = next(('v%d:%s' % (p_['d'], p_['n']) for p_ in f.params if p_['n'] == 'polygons'), None)
-        # the group's box (pre-filter) is accumulated over EVERY polygon: the bounding_box call inside the loop over the group is
-        # not skipped for any polygon (a degenerate polygon still contains the points on it)
-        if gk is not None:
-            for c in f.walk():
-                if c.k == 'CXXMemberCallExpr' and (c.callee or '') == 'gdstk::Polygon::bounding_box':
-                    L = LP.enclosing_loop(c)
-                    if L is None:
-                        continue
-                    conds = tables.path_conds(c, stop=L)
-                    ctx.check(not conds, 'R-AGG', '%s/box-over-every-polygon@%s' % (qn.replace('gdstk::', ''), c.loc()), c.loc(), 'the group bounding box takes in every polygon of the group',
-                              'the bounding box of a polygon is skipped when `%s`: points that only that polygon contains are rejected by the pre-filter before contain() is asked' % ' '.join(conds[0][0].text().split())[:80] if conds else '')
-        needp = pk is not None and {pk + '.count': 1} in trips          # some loop runs exactly points.count times (any loop form)
-        needg = qn.startswith('gdstk::Polygon::') or (gk is not None and {gk + '.count': 1} in trips)
-        ctx.check(needp and needg, 'R-AGG', '%s/all-points-all-polygons' % qn.replace('gdstk::', ''), f.loc(), 'loops run over all points (and all polygons of the group)')
+        ctx.touch(f)
+        member = qn.startswith('gdstk::Polygon::')
+        bad = []
+        runs = 0
+        for g in ([[ix] for ix in range(len(shapes))] if member else groups):
+            for l in lists:
+                runs += 1
+                pts = [M.Obj(x=qs[q][0], y=qs[q][1]) for q in l]
+                env = {'points': M.Obj(items=M.Ptr(pts, 0), count=len(pts))}
+                ref = [None]
+                mi = M.Mini(db, hook=hook_for(ref), budget=20000)
+                ref[0] = mi
+                res = [7] * (len(l) + 1)
+                if member:
+                    env['this'] = mkpoly(g[0])
+                else:
+                    polys = [mkpoly(ix) for ix in g]
+                    env['polygons'] = M.Obj(items=M.Ptr(polys, 0), count=len(polys))
+                    if qn == 'gdstk::inside':
+                        env['result'] = M.Ptr(res, 0)
+                        mi.writable.add(id(res))
+                ret = None
+                try:
+                    mi.run(f.body, env)
+                except M.Return as rr:
+                    ret = rr.v
+                except M.OutOfBounds as ex:
+                    ret = str(ex)
+                each = [truth(g, q) for q in l]
+                if qn == 'gdstk::inside':
+                    got, want = res, [int(b) for b in each] + [7]
+                elif qn.endswith('all_inside') or qn.endswith('contain_all'):
+                    got, want = (bool(ret) if isinstance(ret, int) else ret), all(each)
+                else:
+                    got, want = (bool(ret) if isinstance(ret, int) else ret), any(each)
+                if got != want and len(bad) < 3:
+                    bad.append('group %s, points %s: returns %s, the members contain %s' % ([shapes[ix] for ix in g], [qs[q] for q in l], got, [int(b) for b in each]))
+        total += runs
+        ctx.explored['valuations'] += runs
+        short = qn.replace('gdstk::', '')
+        ctx.check(not bad, 'R-AGG', '%s/quantifier' % short, f.loc(),
+                  'interpreted on %d (group, point list) pairs: the result is exactly %s of "some member contains the point"' % (runs, 'the per-point table' if qn == 'gdstk::inside' else ('the conjunction over the points' if 'all' in qn else 'the disjunction over the points')),
+                  'group query is wrong: ' + '; '.join(bad))
+    ctx.require('R-AGG group cases interpreted', total, 5000)
 
 
 def check_measures(ctx, db):
@@ -494,7 +482,6 @@ def check_inside_writes_all(ctx, db):
 
 def run(ctx):
     db = ctx.db
-    ctx.attempt(check_prefilters, ctx, db)
     ctx.attempt(check_contain, ctx, db)
     ctx.attempt(check_groups, ctx, db)
     ctx.attempt(check_measures, ctx, db)
@@ -503,7 +490,7 @@ def run(ctx):
 
 
 MANIFEST = dict(
-    text='Decides, by exhaustive enumeration of weak orderings (a finite abstract domain that is exact for comparison-only predicates): soundness of the five bounding-box pre-filters; the 9-case table of Polygon::contain over (p0.x, p1.x) against x (only strictly-left edges may be skipped, right edges counted, all others go through the determinant test that reports on-edge points), the half-open crossing rule, and soundness/completeness of the vertex/horizontal-edge boundary test over 81 orderings; plus: group functions reach a positive verdict only through Polygon::contain, visit all points and polygons, reset a per-point verdict at the start of the iteration of every point, and inside() writes every entry of its output array on every path (no early return while there are points); area/signed_area/perimeter return 0 below three vertices before reading vertices, area and signed_area share one shoelace prologue+loop, the repetition factor applies to area and perimeter only, the perimeter is closed, and all three measures take cross products and lengths of vertex differences only (affine typing: translation invariant by construction). Accumulation of the winding number over whole polygons and floating-point sums are not decided.',
+    text='Decides by small-scope interpretation of the source (sa/minieval; no statement shape is matched): Polygon::contain returns the closed region under the non-zero rule for every polygon of up to three (thorough: four) vertices on a 3 x 3 sub-grid and for shapes with holes, double winding, opposite lobes, spikes and notches, against all 25 points of the 5 x 5 grid (vertices, edge interiors, edge levels, inside, outside) - the algorithm only compares coordinates and takes the sign of one determinant, so every ordering of a query against an edge is reached; inside()/all_inside()/any_inside()/contain_all()/contain_any(), on ordered groups of up to two (three) shapes including a segment, a single vertex and an empty polygon and point lists of up to two (three) points with contain() answered exactly per member, return the per-point table / conjunction / disjunction of "some member contains the point" (true / false for no points), so a pre-filter, verdict variable or early exit that changes an answer is reported with the group and points. Structurally: area/signed_area/perimeter return 0 below three vertices before reading vertices, area and signed_area share one shoelace prologue+loop, the repetition factor applies to area and perimeter only and after the whole sum, the perimeter is closed, and all three measures take cross products and lengths of vertex differences only (affine typing: translation invariant by construction). Rounding of the determinant for non-integer coordinates, groups beyond the explored sizes and floating-point sums are not decided.',
     note='Trusted: clang front end, gx, sa rules. Conditions are interpreted only as Boolean combinations of comparisons; anything else raises analysis-broken.',
     technique='predicate extraction + exhaustive weak-order enumeration (finite abstract domain) + decision-table extraction + clone/shape rules',
     design='§4 C14')
